@@ -1781,3 +1781,192 @@ pub mod c15_validated {
         });
     }
 }
+
+// ------------------------------------------------------------------------------------------
+// C16 (b21): c16_race — `validate_record` of ONE real `MaliciousDZKPValidator` called from several OS threads.
+//
+//   c16.race <records per batch> <total> <T> <R> <seed>   ->   rounds=<R> ok=<k> validations=<n>[ first=<round>:<why>]
+//
+// Each of the R rounds takes a fresh validate_record-style validator on one helper (nothing is pushed, so
+// `Batch::validate` returns at once and no other helper is needed), shuffles the records 0 … total−1 and deals them to T
+// real OS threads (position j -> thread j mod T; std::thread::scope, spin barrier). Every thread creates the REAL
+// `DZKPUpgraded::validate_record` futures of its records and polls them (no-op waker, `yield_now` between sweeps) until all
+// completed: the first poll of each future is the critical section (`batcher.lock().unwrap().validate_record(..)` ->
+// `is_ready_for_validation`), so the T threads race for the pending count / bitmap / deque of the same batches. A round is
+// ok iff every record was released with `Ok(())`, nothing panicked, nothing was still pending after 10 s (a hang ends the request; the only use of
+// the clock: a failure path), the validator reports `is_verified()`, and the batch validation closure ran EXACTLY ONCE for
+// every batch index 0 … ⌈total/rpb⌉−1 (guarded hook at the top of `Batch::validate`, registry in harness/c16.rs).
+// `validations` = number of closure invocations over all rounds. Deterministic on a correct tree (mutual exclusion:
+// `exactly_one_validator`); under a check-then-act split two callers both see "ready" (double take -> panic / the NEXT
+// batch popped and validated early) or nobody does (hang).
+pub mod c16_race {
+    use std::{
+        future::Future,
+        pin::Pin,
+        sync::atomic::{AtomicUsize, Ordering},
+        task::{Context as TaskCtx, Poll},
+    };
+
+    use super::c16_batcher::tag;
+    use crate::{
+        error::Error,
+        ipa_verif::proto::*,
+        protocol::{
+            RecordId,
+            context::{Context, DZKPContext, MaliciousContext, TEST_DZKP_STEPS, UpgradableContext, dzkp_validator::DZKPValidator},
+        },
+        sharding::NotSharded,
+        test_fixture::TestWorld,
+    };
+
+    type Fut<'a> = Pin<Box<dyn Future<Output = Result<(), Error>> + Send + 'a>>;
+
+    fn exec(base: &MaliciousContext<'_, NotSharded>, k: usize, req: &str) -> String {
+        let t: Vec<&str> = req.split(' ').collect();
+        assert_eq!(t[0], "c16.race");
+        let p: Vec<usize> = t[1..5].iter().map(|x| x.parse().unwrap()).collect();
+        let (rpb, total, threads, rounds) = (p[0], p[1], p[2], p[3]);
+        let mut rng = Rng(t[5].parse::<u64>().unwrap() ^ 0xC16_4ACE);
+        assert!(rpb >= 1 && total >= 1 && total <= 4096 && (1..=16).contains(&threads) && rounds <= 100_000, "harness: bad race parameters");
+        let nb = total.div_ceil(rpb);
+        let (mut ok, mut validations) = (0usize, 0usize);
+        let mut first_fail: Option<String> = None;
+        for round in 0..rounds {
+            let marker = format!("c16race{k}x{round}x");
+            let validator = base.narrow(&marker).set_total_records(total).dzkp_validator(TEST_DZKP_STEPS, rpb);
+            let ctx = validator.context();
+            let mut order: Vec<usize> = (0..total).collect();
+            rng.shuffle(&mut order);
+            let arrived = AtomicUsize::new(0);
+            let outcomes: Vec<Vec<(usize, String)>> = std::thread::scope(|sc| {
+                let hs: Vec<_> = (0..threads)
+                    .map(|t| {
+                        let (order, ctx, arrived) = (&order, &ctx, &arrived);
+                        sc.spawn(move || {
+                            let mine: Vec<usize> = order.iter().skip(t).step_by(threads).copied().collect();
+                            arrived.fetch_add(1, Ordering::SeqCst);
+                            let mut spins = 0u32;
+                            while arrived.load(Ordering::Acquire) < threads {
+                                spins += 1;
+                                if spins % 4096 == 0 {
+                                    std::thread::yield_now();
+                                } else {
+                                    std::hint::spin_loop();
+                                }
+                            }
+                            let mut futs: Vec<Option<Fut<'_>>> = mine.iter().map(|&r| Some(ctx.validate_record(RecordId::from(r)))).collect();
+                            let mut res: Vec<(usize, String)> = vec![];
+                            let mut cx = TaskCtx::from_waker(futures::task::noop_waker_ref());
+                            let deadline = std::time::Instant::now() + std::time::Duration::from_secs(10);
+                            loop {
+                                for (i, slot) in futs.iter_mut().enumerate() {
+                                    let Some(f) = slot.as_mut() else { continue };
+                                    let polled = std::panic::catch_unwind(std::panic::AssertUnwindSafe(|| f.as_mut().poll(&mut cx)));
+                                    match polled {
+                                        Ok(Poll::Pending) => {}
+                                        Ok(Poll::Ready(Ok(()))) => {
+                                            res.push((mine[i], "ok".into()));
+                                            *slot = None;
+                                        }
+                                        Ok(Poll::Ready(Err(e))) => {
+                                            res.push((mine[i], format!("err:{}", canon(&format!("{e:?}")).replace([' ', ','], "_"))));
+                                            *slot = None;
+                                        }
+                                        Err(p) => {
+                                            let msg = p.downcast_ref::<String>().cloned().or_else(|| p.downcast_ref::<&str>().map(|s| (*s).to_string())).unwrap_or_default();
+                                            res.push((mine[i], tag(&msg)));
+                                            *slot = None;
+                                        }
+                                    }
+                                }
+                                if futs.iter().all(Option::is_none) {
+                                    break;
+                                }
+                                if std::time::Instant::now() > deadline {
+                                    for (i, slot) in futs.iter().enumerate() {
+                                        if slot.is_some() {
+                                            res.push((mine[i], "hang".into()));
+                                        }
+                                    }
+                                    break;
+                                }
+                                std::thread::yield_now();
+                            }
+                            drop(futs);
+                            res
+                        })
+                    })
+                    .collect();
+                hs.into_iter().map(|h| h.join().expect("harness: race thread")).collect()
+            });
+            let handed = crate::ipa_verif::c16::take_validations(&marker);
+            validations += handed.len();
+            let mut bad: Option<String> = outcomes.iter().flatten().filter(|(_, o)| o != "ok").min().map(|(r, o)| format!("{round}:record{r}:{o}"));
+            if bad.is_none() && handed != (0..nb).collect::<Vec<_>>() {
+                bad = Some(format!("{round}:validated-batches:{}", handed.iter().map(|b| b.to_string()).collect::<Vec<_>>().join("+")));
+            }
+            if bad.is_none() {
+                match guarded(|| validator.is_verified()) {
+                    Ok(Ok(())) => {}
+                    Ok(Err(_)) => bad = Some(format!("{round}:unverified")),
+                    Err(p) => bad = Some(format!("{round}:is_verified:{}", tag(&p))),
+                }
+            }
+            drop(ctx);
+            let _ = guarded(move || drop(validator));
+            let hung = outcomes.iter().flatten().any(|(_, o)| o == "hang");
+            match bad {
+                None => ok += 1,
+                Some(b) => {
+                    first_fail.get_or_insert(b);
+                }
+            }
+            if hung {
+                // every further hang would cost another deadline: the request has failed, stop here
+                // (the remaining rounds count as not ok)
+                break;
+            }
+        }
+        match first_fail {
+            None => format!("rounds={rounds} ok={ok} validations={validations}"),
+            Some(f) => format!("rounds={rounds} ok={ok} validations={validations} first={f}"),
+        }
+    }
+
+    #[test]
+    fn verif_c16_race() {
+        let rt = tokio::runtime::Builder::new_current_thread().enable_all().build().unwrap();
+        let _guard = rt.enter();
+        let world = TestWorld::<NotSharded>::default();
+        let [root, _, _] = world.malicious_contexts();
+        let counter = std::cell::Cell::new(0usize);
+        run_suite(
+            "c16_race",
+            |rng, thorough| {
+                let k = if thorough { 20 } else { 1 };
+                let mut out = vec![];
+                // (records per batch, total, threads, rounds): one batch; several batches; a partial last batch;
+                // batches of one record; more threads than records per batch; the sequential control
+                for (rpb, total, threads, rounds) in [
+                    (16usize, 16usize, 4usize, 600usize),
+                    (4, 4, 4, 1000),
+                    (2, 2, 2, 1000),
+                    (8, 32, 4, 300),
+                    (4, 14, 3, 300),
+                    (1, 8, 4, 300),
+                    (2, 16, 8, 300),
+                    (64, 128, 4, 100),
+                    (8, 24, 1, 50),
+                ] {
+                    out.push(format!("c16.race {rpb} {total} {threads} {} {}", rounds * k, rng.below(1 << 40)));
+                }
+                out
+            },
+            |req| {
+                let k = counter.get();
+                counter.set(k + 1);
+                exec(&root, k, req)
+            },
+        );
+    }
+}
